@@ -197,13 +197,15 @@ func (m *Agreement) Canon() map[int]string { return m.canon }
 // C02 finality
 
 type nodeFinal struct {
-	consumed int
-	lastIdx  int
-	lastRR   int
-	started  bool
-	body     map[int]string            // index → digest of delivered body + state hash + receipts
-	sigs     map[int]map[string]string // index → signer → signature as last seen
-	appGen   *sim.App
+	consumed   int
+	lastIdx    int
+	lastRR     int
+	started    bool
+	restores   int                       // entries of App.RestoreAt consumed
+	afterReset bool                      // the next block is the first after a reset (its round-received is compared with nothing)
+	body       map[int]string            // index → digest of delivered body + state hash + receipts
+	sigs       map[int]map[string]string // index → signer → signature as last seen
+	appGen     *sim.App
 }
 
 type Finality struct {
@@ -226,9 +228,31 @@ func (m *Finality) AfterStep(c *sim.Cluster) []ev.Violation {
 			nf = &nodeFinal{body: map[int]string{}, sigs: map[int]map[string]string{}, appGen: n.App}
 			m.nodes[n.Idx] = nf
 		}
+		// a node that reset itself to an anchor (fast-sync) goes on with the block after the anchor,
+		// whatever it had delivered before; what it reported for later indexes is void
+		applyRestores := func(upTo int) {
+			for _, r := range n.App.RestoreAt[nf.restores:] {
+				if r.Commits > upTo {
+					break
+				}
+				nf.restores++
+				if nf.started {
+					nf.lastIdx, nf.lastRR, nf.afterReset = r.Index, -1, true
+					for i := range nf.body {
+						if i > r.Index {
+							delete(nf.body, i)
+						}
+					}
+					// the store was replaced by the anchor block as the serving peer holds it: the
+					// signatures collected before the reset went with the old store
+					nf.sigs = map[int]map[string]string{}
+				}
+			}
+		}
 		for k := nf.consumed; k < len(n.App.Commits); k++ {
 			cr := n.App.Commits[k]
 			idx, rr := cr.Body.Index, cr.Body.RoundReceived
+			applyRestores(k)
 			if !nf.started {
 				// a node starts at 0, or at anchor+1 after a fast-sync
 				if n.FullHistory() && idx != 0 {
@@ -247,16 +271,17 @@ func (m *Finality) AfterStep(c *sim.Cluster) []ev.Violation {
 						What:   fmt.Sprintf("node %d delivered block index %d after %d", n.Idx, idx, nf.lastIdx),
 						Replay: replay(c, map[string]interface{}{"node": n.Idx})})
 				}
-				if rr <= nf.lastRR {
+				if rr <= nf.lastRR && !nf.afterReset {
 					out = append(out, ev.Violation{Property: "C02", Key: "round-received-not-increasing",
 						What:   fmt.Sprintf("node %d delivered block %d with round-received %d after round-received %d", n.Idx, idx, rr, nf.lastRR),
 						Replay: replay(c, map[string]interface{}{"node": n.Idx})})
 				}
 			}
-			nf.lastIdx, nf.lastRR = idx, rr
+			nf.lastIdx, nf.lastRR, nf.afterReset = idx, rr, false
 			nf.body[idx] = digest(deliveredOf(cr))
 		}
 		nf.consumed = len(n.App.Commits)
+		applyRestores(nf.consumed)
 		if n.Down {
 			continue
 		}
